@@ -115,7 +115,7 @@ func run(o *Options) int {
 	}
 	tmp, _ := os.MkdirTemp("", "gcv")
 	defer os.RemoveAll(tmp)
-	solver := &Solver{Dir: tmp, Timeout: o.Timeout, All: false}
+	solver := &Solver{Dir: tmp, Timeout: o.Timeout, All: false, noRetry: os.Getenv("GCV_RETRY") == ""}
 	if os.Getenv("GCV_CACHE") != "" {
 		solver.cacheDir = filepath.Join(o.Verif, ".cache", "smt")
 	}
